@@ -685,6 +685,24 @@ func c23Cases() []c23Case {
 	for _, sp := range specs {
 		cases = append(cases, c23Enumerate(sp.base, sp.prefix, sp.depth)...)
 	}
+	// hand-written sequences the main-line enumeration cannot reach (its Wait always lets the timer fire):
+	// second connection of the same FSM, time passing in OpenSent before the neighbour's OPEN arrives
+	for _, ib := range []bool{false, true} {
+		for _, exit := range []int{c23EvNotification, c23EvMalformed, c23EvAutoStop} {
+			for _, waits := range []int{1, 2} {
+				evs := cat(cat(toOS, toE), []int{exit, c23EvStart, c23EvConnUp})
+				for w := 0; w < waits; w++ {
+					evs = append(evs, c23EvWait)
+				}
+				evs = append(evs, c23EvOpenGood, c23EvKeepalive, c23EvUpdate)
+				c := c23Case{Active: true, IBGP: ib}
+				for _, e := range evs {
+					c.Events = append(c.Events, c23Ev{Kind: e})
+				}
+				cases = append(cases, c)
+			}
+		}
+	}
 	seed := int(kit.Seed() % 1000000)
 	for i := 0; i < c23RandomCount(); i++ {
 		cases = append(cases, c23Gen.Example(seed*4096+i))
